@@ -344,7 +344,15 @@ func (l *Linter) lintRestartStatement(stmt *ast.RestartStatement, ctx *context.C
 }
 
 func (l *Linter) lintEsiStatement(stmt *ast.EsiStatement, ctx *context.Context) types.Type {
-	// Nothing to lint because this statement is simply esi; and enabled in all subroutines.
+	// esi statement takes effect in FETCH scope only, the simulator refuses it elsewhere
+	// see: https://developer.fastly.com/reference/vcl/statements/esi/
+	if !isAllowedInEveryScope(ctx.Mode(), context.FETCH) {
+		l.Error(&LintError{
+			Severity: ERROR,
+			Token:    stmt.GetMeta().Token,
+			Message:  "esi statement is available in FETCH scope only",
+		})
+	}
 	return types.NeverType
 }
 
